@@ -314,6 +314,15 @@ def generate(tier, rng):
         s = pre + bytes([0x3c + off // 16, (off % 16) + (ln - 2) * 16])
         for n in range(18, 18 + ln + 1):
             items.append({'n': n, 's': lib.hx(s), 'pad': 2})
+    # streams of another producer that use the whole range of offsets the two-byte form can express
+    # ((255 - 0x3c) * 16 + 15 = 3135; picotool's own compressor never looks back further than its window): more
+    # than 3135 bytes of literals, then one back-reference at every offset around the window and up to the largest
+    omax = (255 - 0x3c) * 16 + 15
+    lit = bytes(rng.randrange(1, 60) for _ in range(omax + 40))
+    for off in ([3119, 3120, 3121, 3122, 3127, 3128, omax - 1, omax] if quick else range(3100, omax + 1)):
+        for ln in ((3, 17) if quick else (3, 4, 16, 17)):
+            s = lit + bytes([0x3c + off // 16, (off % 16) + (ln - 2) * 16]) + bytes([5, 6])
+            items.append({'n': len(lit) + ln + 2, 's': lib.hx(s), 'pad': 0})
     for i in range(0, len(items), 100):
         yield {'k': 'streams', 'group': 'streams', 'items': items[i:i + 100]}
     # 7. malformed streams (correspondence only; the monitor makes no claim where the format defines nothing)
